@@ -1,7 +1,8 @@
 /-
-Executable model of /repo/data/src/data/parsing.rs (non-test code, lines 1–211) and of the `parse_*` entry
+Executable model of /repo/data/src/data/parsing.rs (non-test code, lines 1–225 at commit e7eab2e) and of the `parse_*` entry
 points of the two data factories (runtime.rs / basic/garnish/factory.rs: identical bodies):
-a statement-by-statement transliteration.  Bugs of the Rust code are reproduced, not repaired.
+a statement-by-statement transliteration of the code as it is now (after the fixes ca81cbf, 5e723e1, 4061d44,
+e7eab2e: lengths in characters, `''` is empty, multi-byte characters keep all their bytes, `trim_start_matches`).
 
 Conventions
 * `&str` = `List Char`; byte lengths / byte offsets (`str::len`, slicing) are computed with `Char.utf8Size`.
@@ -268,7 +269,7 @@ def parseByteList (input : List Char) : Outcome (List Nat) :=
       -- &input[start_quote_count..(input.len() - start_quote_count)]     (byte offsets: `input.len()` is a byte length;
       -- no underflow since 2·quotes < chars ≤ bytes, but the end offset can fall inside a multi-byte character)
       match sliceBytes input startQuoteCount (byteLen input - startQuoteCount) with
-      | none => .panic "parsing.rs:112 byte index is not a char boundary"
+      | none => .panic "parsing.rs:116 byte index is not a char boundary"
       | some inner => parseByteListNumbers parseFloat inner
     else
       byteListLoop [] false ((input.drop startQuoteCount).take realLen)
